@@ -162,12 +162,17 @@ class Param():
 
         self.all_updated = Caller()
         self.is_updated = False
+        self._all_requested = False
         self._initialized = Event()
 
         self.values = {}
 
     def request_update_of_all_params(self):
         """Request an update of all the parameters in the TOC"""
+        # The TOC is complete from here on. A value that arrives while it is
+        # being downloaded (a notification from the firmware) must not be
+        # taken for the last missing one
+        self._all_requested = True
         for group in self.toc.toc:
             for name in self.toc.toc[group]:
                 complete_name = '%s.%s' % (group, name)
@@ -223,7 +228,7 @@ class Param():
 
             # Once all the parameters are updated call the
             # callback for "everything updated"
-            if self._check_if_all_updated() and not self.is_updated:
+            if self._all_requested and self._check_if_all_updated() and not self.is_updated:
                 self.is_updated = True
                 self._initialized.set()
                 self.all_updated.call()
@@ -289,6 +294,7 @@ class Param():
     def _connection_requested(self, uri):
         # Reset the internal state on connect to make sure we have a clean state
         self.is_updated = False
+        self._all_requested = False
         self.toc = Toc()
         self.values = {}
         self._initialized.clear()
